@@ -45,7 +45,7 @@ template <integral Int, from_integer_options Options = from_integer_options{}>
     bool isNegative = false;
     if constexpr (is_signed_v<Int>) {
         if (num < 0 and base == 10) {
-            if (length <= i + 1) {
+            if (length <= i) {
                 return {.end = str + length, .error = from_integer_error::overflow};
             }
             isNegative = true;
@@ -54,7 +54,7 @@ template <integral Int, from_integer_options Options = from_integer_options{}>
     }
 
     while (num != 0) {
-        if (length <= i + 1) {
+        if (length <= i) {
             return {.end = str + length, .error = from_integer_error::overflow};
         }
 
@@ -63,6 +63,12 @@ template <integral Int, from_integer_options Options = from_integer_options{}>
 
         str[i++] = (digit > 9) ? (digit - 10) + 'a' : digit + '0';
         num      = quot;
+    }
+
+    if constexpr (Options.terminate_with_null) {
+        if (length <= i) {
+            return {.end = str + length, .error = from_integer_error::overflow};
+        }
     }
 
     etl::reverse(str + static_cast<size_t>(isNegative), str + i);
